@@ -108,6 +108,29 @@ class Frame:
         self.cont_envs = []
         self.param_live = set()       # parameters still bound to the caller's object (not re-assigned to a new one)
         self.param_mutated = set()    # … of which some element was stored in place
+        self.views = {}               # local name -> local names whose memory it shares (reshape / .T / basic slice / asarray of a local)
+
+
+_VIEW_METHODS = {"reshape", "view", "transpose", "swapaxes", "squeeze", "ravel"}
+_VIEW_FUNCS = {"asarray", "reshape", "transpose", "squeeze", "ravel", "atleast_1d", "atleast_2d", "atleast_3d", "swapaxes", "asanyarray"}
+
+
+def _view_base(x):
+    """name of the local array whose memory the expression (possibly) shares, or None"""
+    if isinstance(x, ast.Attribute) and x.attr == "T" and isinstance(x.value, ast.Name):
+        return x.value.id
+    if isinstance(x, ast.Call) and isinstance(x.func, ast.Attribute):
+        if x.func.attr in _VIEW_METHODS and isinstance(x.func.value, ast.Name) and x.func.value.id not in ("np", "numpy"):
+            return x.func.value.id
+        if x.func.attr in _VIEW_FUNCS and isinstance(x.func.value, ast.Name) and x.func.value.id in ("np", "numpy") and x.args \
+                and isinstance(x.args[0], ast.Name) and not any(k.arg == "dtype" for k in x.keywords):
+            return x.args[0].id
+    if isinstance(x, ast.Subscript) and isinstance(x.value, ast.Name):
+        els = x.slice.elts if isinstance(x.slice, ast.Tuple) else [x.slice]
+        if all(isinstance(e, ast.Slice) or (isinstance(e, ast.Constant) and (e.value is None or e.value is Ellipsis or isinstance(e.value, int)))
+               for e in els):
+            return x.value.id
+    return None
 
 
 def _origin_val(name, **kw):
@@ -1282,6 +1305,11 @@ class Interp:
             if aug and t.id in fr.param_live and v.tag("kind") != "int" and not v.tag("isnum"):
                 fr.param_mutated.add(t.id)               # `x -= y` on an array parameter updates the caller's object
             fr.env[t.id] = v.with_ctrl(c) if c else v
+            vb = _view_base(node.value) if isinstance(node, ast.Assign) and not aug else None
+            if vb is not None and vb != t.id and vb in fr.env:
+                fr.views[t.id] = {vb} | fr.views.get(vb, set())
+            elif not aug:
+                fr.views.pop(t.id, None)
             return
         if isinstance(t, (ast.Tuple, ast.List)):
             items = v.items
@@ -1420,6 +1448,30 @@ class Interp:
             nb.term = mk_term("stored", base.term, f.term)
             if isinstance(t.value, ast.Name):
                 fr.env[t.value.id] = nb
+                for bn in fr.views.get(t.value.id, ()):
+                    # the target is a view (reshape / transpose / basic slice) of another local array: the store lands in that array too
+                    ob = fr.env.get(bn)
+                    if ob is None:
+                        continue
+                    eb = ob.copy()
+                    eb.items = None
+                    eb.const = U
+                    eb.data = ob.data | f.data | i.data
+                    eb.shp = ob.shp | f.shp | i.shp
+                    eb.ctrl = ob.ctrl | f.ctrl | i.ctrl | c
+                    eb.refs = ob.refs | f.refs
+                    if ob.unit == POLY and v.unit is not None:
+                        eb.unit, eb.frame = v.unit, v.frame
+                    elif ob.unit is not None and v.unit is not None and not ueq(ob.unit, v.unit)[0]:
+                        eb.unit = None
+                    if ob.sign is not None and v.sign is not None:
+                        from .values import join_sign as _js
+                        eb.sign = _js(ob.sign, v.sign) if not ob.tags.get("zero_init") else (v.sign if v.sign in ("NONNEG", "POS") else None)
+                    else:
+                        eb.sign = None
+                    fr.env[bn] = eb
+                    if bn in fr.param_live:
+                        fr.param_mutated.add(bn)
             elif isinstance(t.value, ast.Attribute) and isinstance(t.value.value, ast.Name) and t.value.value.id == "self":
                 self.ctx.selfenv[t.value.attr] = nb
                 self.emit("self_store", node, attr=t.value.attr, val=nb, how="item", key=idx)      # self.x[...] = v changes the field x
@@ -1433,7 +1485,10 @@ class Interp:
         if base.tag("self_container") and not (base.tag("self_dict") or base.tag("self_dict_member")):
             # item store into a container that IS (or may be) a field of the estimator, possibly through a local alias
             self.emit("self_store", node, attr=base.tag("self_container"), val=v, how="item", key=idx)
-        if base.tag("self_dict") or base.tag("self_dict_member"):
+        if base.tag("self_dict_member") and not base.tag("self_dict"):
+            # an item store into a container that lives in self.__dict__: the subscript is the cache key
+            self.emit("self_store", node, attr=base.tag("self_dict_member"), val=v, how="item", key=idx)
+        elif base.tag("self_dict") or base.tag("self_dict_member"):
             self.emit("self_store", node, attr=(idx.const if (idx.known and isinstance(idx.const, str) and base.tag("self_dict")) else
                                                 base.tag("self_dict_member") or "__dict__[…]"), val=v)
         nb = base.copy()
